@@ -1,6 +1,7 @@
 Require Extraction.
 Require Import ExtrOcamlBasic.
-From CSL Require Import Base.Prelude Json.Decimal Json.Json Json.MetadataJson Json.Chunks Json.PlutusJson Json.SerdeForms Json.Judge.
+From CSL Require Import Base.Prelude Codec.Schema Ledger.Schemas Json.Decimal Json.Json Json.MetadataJson Json.Chunks Json.PlutusJson
+  Json.SerdeForms Json.Judge Json.SerdeSchema Json.SerdeLedger Json.SerdeJudge.
 Extraction Language OCaml.
 Definition keepN : N := N.add 0 0.
 Definition keepZ : Z := Z.add 0 0.
@@ -8,4 +9,5 @@ Definition keepNat : nat := length (@nil N).
 Extraction "model_c17.ml" keepN keepZ keepNat cur_cfg j2m m2j md_eqb md_wf md_sorted in_schema nf json_wf json_eqb
   encode_arbitrary_bytes decode_arbitrary_bytes j2p p2j pd_eqb pd_wf pd_has_empty_values
   sf_de sf_ser sval_ok sf_canonical
-  judge_j2m judge_m2j judge_j2p judge_p2j judge_chunk judge_unchunk judge_sfd judge_sfs judge_ty.
+  judge_j2m judge_m2j judge_j2p judge_p2j judge_chunk judge_unchunk judge_sfd judge_sfs judge_ty
+  enc dec wfv j_table lookup_serde j_json j_of_json j_norm j_wf j_canonical tj_premise judge_tj val_eqb.
